@@ -465,7 +465,7 @@ pub fn run(tier: Tier, seed: u64, replay: Option<&std::path::Path>) -> i32 {
     }
     let cases = match tier {
         Tier::Quick => 900,
-        Tier::Thorough => 14_000,
+        Tier::Thorough => 30_000,
     };
     let out = run_sharded("C10", seed, cases, 200, strategy_any, run_case_any);
     let report = Report {
